@@ -117,18 +117,19 @@ def main(argv):
             jobs_ev.append(dict(job=jn, status='undecided', reason=r.reason[:400], selector=sel))
             continue
         obs = [o for o in r.obligations if selector_ok(sel, o)]
-        bad = [o for o in obs if o['status'] != 'SUCCESS']
+        bad = [o for o in obs if o['status'] == 'FAILURE']
+        notok = [o for o in obs if o['status'] != 'SUCCESS']
         ev = dict(job=jn, selector=sel, function_under_contract=job.enforce, files=list(job.files),
                   callees_replaced_by_contract=list(job.replace), loop_contracts=bool(job.loops),
                   backend=r.backend, seconds=r.seconds, obligations=len(obs),
-                  discharged=len(obs) - len(bad), reach_canaries=[c['description'] for c in r.reach],
+                  discharged=len(obs) - len(notok), reach_canaries=[c['description'] for c in r.reach],
                   note=job.note, bounded=job.bounded, cmds=r.cmds)
         jobs_ev.append(ev)
         if job.bounded:
             bounded_jobs.append(jn)
         else:
             total_ob += len(obs)
-            total_ok += len(obs) - len(bad)
+            total_ok += len(obs) - len(notok)
         pick = [o for o in obs if o['status'] == 'SUCCESS']
         rnd.shuffle(pick)
         for o in pick[:3]:
